@@ -29,7 +29,7 @@ from ..tok import S
 
 PID = "C09"
 COQ_HEADER = ("From Coq Require Import String.\nFrom Coq Require Import List NArith ZArith.\n"
-              "From SK Require Import lib.Tok lib.LGraph lib.StrJoin model.C01_Model model.C02_Model model.C09_Model model.C09_Strings.\n"
+              "From SK Require Import lib.Tok lib.LGraph lib.StrJoin model.C01_Model model.C02_Model model.C09_Model model.C09_Strings model.C09_State.\n"
               "Import ListNotations.\nOpen Scope Z_scope.\n")
 SHARD = 24
 IMPL_TIMEOUT = 1500
@@ -196,8 +196,9 @@ def _fit(rsmi):
 DEFAULT_ATTRS = ("element", "aromatic", "charge", "hcount")
 
 
-def _canon_term(rsmi, backend, wl_iterations=3, node_attrs=DEFAULT_ATTRS):
-    """Gallina term of the model for CanonRSMI(backend, ...).canonicalise(rsmi), or None outside the model"""
+def _canon_term(rsmi, backend, wl_iterations=3, node_attrs=DEFAULT_ATTRS, state=False):
+    """Gallina term of the model for CanonRSMI(backend, ...).canonicalise(rsmi), or None outside the model;
+    state=True: the whole instance state after the call (model/C09_State.v), as the histories observe it"""
     gh = _raw_graphs(rsmi)
     if gh is None or not _ascii_elems(*gh) or gh[0].number_of_nodes() == 0 or not _simple(*gh):
         return None
@@ -205,9 +206,9 @@ def _canon_term(rsmi, backend, wl_iterations=3, node_attrs=DEFAULT_ATTRS):
     if backend == "wl":
         r = _wl_ranks(gh[0], wl_iterations, node_attrs)
         ranks = "[" + "; ".join("(%s, %s)" % (E.cN(n), E.cZ(r[n])) for n, _ in g["nodes"]) + "]"
-        return "run_canon_wl %s %s %s" % (ranks, E.coq_mgraph(g), E.coq_mgraph(h))
+        return "%s %s %s %s" % ("run_cstate_wl" if state else "run_canon_wl", ranks, E.coq_mgraph(g), E.coq_mgraph(h))
     if backend == "generic":
-        return "run_canon_generic %s %s" % (E.coq_mgraph(g), E.coq_mgraph(h))
+        return "%s %s %s" % ("run_cstate_generic" if state else "run_canon_generic", E.coq_mgraph(g), E.coq_mgraph(h))
     if backend == "nauty":
         if tuple(node_attrs) != DEFAULT_ATTRS or len(g["nodes"]) > NAUTY_MAX_ATOMS:
             return None
@@ -216,7 +217,7 @@ def _canon_term(rsmi, backend, wl_iterations=3, node_attrs=DEFAULT_ATTRS):
             _with_alarm(SLOW_MODEL_S, GraphCanonicaliser(backend="nauty")._canon_nauty, gh[0])
         except _Slow:
             return None
-        return "run_canon_nauty %s %s" % (E.coq_mgraph(g), E.coq_mgraph(h))
+        return "%s %s %s" % ("run_cstate_nauty" if state else "run_canon_nauty", E.coq_mgraph(g), E.coq_mgraph(h))
     return None                                   # morgan: oracle only
 
 
@@ -250,7 +251,7 @@ def _hist_terms(case):
                 out.append((i, "tbool (smiles_check_full %s %s %s %s)" % (ST.cbytes(meth), ia, opt(gs[0]), opt(gs[1]))))
             elif op == "canon":
                 c = ctor[st["obj"]]
-                t = _canon_term(st["rsmi"], c["backend"], c.get("wl_iterations", 3), tuple(c.get("node_attrs", DEFAULT_ATTRS)))
+                t = _canon_term(st["rsmi"], c["backend"], c.get("wl_iterations", 3), tuple(c.get("node_attrs", DEFAULT_ATTRS)), state=True)
                 last[st["obj"]] = t
                 if t is not None:
                     out.append((i, t))
